@@ -76,12 +76,14 @@ MUT={
  'c09-no-ctx-case': [(B,'''		case <-ctx.Done():
 			return scRef
 		case <-ticker.C:''','''		case <-ticker.C:''')],
- 'c20-no-connect': [(B,'''		scRef.subConn.UpdateAddresses(addrs)
+ 'c20-no-connect': [(B,"""		scRef.subConn.UpdateAddresses(addrs)
 		scRef.subConn.Connect()
 	}
-	for sc := range''','''		scRef.subConn.UpdateAddresses(addrs)
+
+	return nil""","""		scRef.subConn.UpdateAddresses(addrs)
 	}
-	for sc := range''')],
+
+	return nil""")],
  'c20-addrs-after': [(B,'''	gb.addrs = addrs
 	if gb.cfg == nil {''','''	if gb.cfg == nil {''')],
  'c20-no-pending-update': [(B,'''		sc.UpdateAddresses(addrs)
